@@ -147,7 +147,8 @@ class Circuit(RoutingObject):
         Adds a hop to the circuits hop collection.
         """
         self._hops.append(hop)
-        if self.state == CIRCUIT_STATE_READY:
+        # Whoever awaited the future may have been cancelled (or timed out) in the meantime, which cancels the future.
+        if self.state == CIRCUIT_STATE_READY and not self.ready.done():
             self.ready.set_result(self)
         self.dirty = True
 
